@@ -1,4 +1,5 @@
 import DatamonVerif.Model.PutRetry
+import DatamonVerif.Generated.Facts
 /-! C16, "reads return the last written bytes", for `localfs.Put` under write faults and retries:
 whatever the fault schedule, a `Put` that reports success has written exactly what the source held
 from its starting position; the code before the fix did not (witness by `decide`). -/
@@ -57,6 +58,10 @@ theorem C16_put_plain_reports (data : Bytes) (start : Nat) (keep used : Nat) (re
 /-- the unrepaired code: 10 bytes, the first write delivers 4 and fails, the retry succeeds — with 6 bytes -/
 theorem C16_neg_old_put_truncates :
     putOld ⟨[0, 1, 2, 3, 4, 5, 6, 7, 8, 9], 0, true⟩ [some (4, 4), none] = some [4, 5, 6, 7, 8, 9] := by decide
+
+/-- regenerated from `pkg/storage/localfs/store.go` on every run: both retried operations of `Put`
+    (the `WriterTo` one and the `PipeIO` one) rewind the source before they reopen the record -/
+theorem C16_facts_put_rewinds : Facts.localfsPutOperationFirstCalls = ["rewind", "rewind"] := by decide
 
 /-- non-vacuity: the same schedule on the repaired code stores all ten bytes -/
 example : putFixed 0 ⟨[0, 1, 2, 3, 4, 5, 6, 7, 8, 9], 0, true⟩ [some (4, 4), none] true
